@@ -142,10 +142,12 @@ def k2(ctx, fx, A, fn, b, node):
             ctx.finding("C04.K2", fn, "b:validation" + tag, "cannot establish the KB-JWT Validation's configuration: %s" % "; ".join(st["unknown"]), line=line)
             continue
         aud = st["aud"]
-        aud_ok = aud is not None and must(aud, lambda x: x.kind == "param" and x.fn is fn and x.d.get("name") == "expected_aud") if aud is not None else False
+        from val import must_env
+        env = st.get("env") or {}
+        aud_ok = aud is not None and must_env(aud, lambda x: x.kind == "param" and x.fn is fn and x.d.get("name") == "expected_aud", env)
         if aud is not None and not aud_ok:
             # by position: a String parameter that reaches set_audience at every call site from `new` carrying expected_aud
-            aud_ok = must(aud, lambda x: x.kind == "param" and x.fn is fn and param_carries(fx, A, fn, x.d["idx"], "expected_aud"))
+            aud_ok = must_env(aud, lambda x: x.kind == "param" and x.fn is fn and param_carries(fx, A, fn, x.d["idx"], "expected_aud"), env)
         chk(ctx, fn, line, "b:audience" + tag, aud_ok, "set_audience([expected_aud])", "the Validation's audience is not the verifier's expected_aud")
         req = st["required"]
         chk(ctx, fn, line, "b:aud-required" + tag, isinstance(req, set) and "aud" in req, "\"aud\" is a required claim", "\"aud\" is not required (%r): a KB-JWT without aud would pass" % (sorted(req) if isinstance(req, set) else req,))
